@@ -12,9 +12,6 @@ F_INT = ['F', ['xs:integer'], 'xs:integer']
 
 # (name, bucket pattern for known.json, what, fixed_by or None, witness (check, case), exact expect_bucket)
 E = [
- ('known_parse_occurrence_assert', 'C18/parse/instance/AssertionError@xpath1/xpath1_parser.py:parse_occurrence/*',
-  "an occurrence indicator behind array(...) or behind a member/value type inside array(...)/map(K, ...) makes the parser hit `assert self.token is token` in XPath1Parser.parse_occurrence: AssertionError escapes for `() instance of array(*)?`, `map(xs:int, xs:int*)`, `array(xs:string+)` (XPath 3.1 [79],[105]-[108] allow them)",
-  'fix04', J(['S', []], 'array(*)?'), 'C18/parse/instance/AssertionError@xpath1/xpath1_parser.py:parse_occurrence/array(*)+*?'),
  ('known_parse_parenthesized', 'C18/parse/instance/XPST0003:unexpected-parenthesized-expression/(...)',
   "ParenthesizedItemType (XPath 3.0+ production [113], e.g. `1 instance of (xs:integer)?`, needed to put an occurrence on a typed function test) is rejected with XPST0003",
   None, J(INT, '(xs:integer)?'), 'C18/parse/instance/XPST0003:unexpected-parenthesized-expression/(...)'),
@@ -95,9 +92,6 @@ E = [
   None, J(['FN', 'abs#1'], 'function(xs:integer) as xs:numeric?'), 'C18/instance/typed-function-test/subtype-incomplete/?<-1'),
  ('known_function_test_incomplete_api', 'C18/api/typed-function-test/subtype-incomplete/*', "match_sequence_type: same as instance of",
   None, J(['FN', 'abs#1'], 'function(xs:integer) as xs:numeric?'), 'C18/api/typed-function-test/subtype-incomplete/?<-1'),
- ('known_function_test_attribute_source_api', 'C18/api/typed-function-test/attribute-test-in-signature/*',
-  "the token of an attribute test has no usable source text ('attribute', 'attribute *'), so the recorded signature of `function() as map(xs:string, attribute()) {..}` is 'map(xs:string, attribute)' and never matches its own type",
-  None, J(['F', [], 'map(xs:string, attribute())'], 'function() as map(xs:string, attribute())'), 'C18/api/typed-function-test/attribute-test-in-signature/false-negative'),
  ('known_api_namespace_node', 'C18/api/namespace-node-test/false-negative',
   "match_sequence_type(namespace node, 'namespace-node()') is false: the matcher compares the text with f'{node_kind}()' = 'namespace()'",
   'fix05', J(['N', 9], 'namespace-node()'), 'C18/api/namespace-node-test/false-negative'),
@@ -175,14 +169,10 @@ def SG(fn, arity, args, ret, ctx=None):
 EMPTYF = ['F', ['item()*', 'item()'], 'item()*', '()']
 X = [
  ('known_sig_fold_left', 'C18/signature/fn:fold-left#3/returns-python-None-as-item',
-  "fn:fold-left((), (), $f) returns [None] - a python None inside the result list (count() of it is 1) - instead of the empty sequence; declared item()*", 'fix09',
+  "fn:fold-left((), (), $f) returns [None] - a python None inside the result list (count() of it is 1) - instead of the empty sequence; declared item()*", 'fix04',
   SG('fn:fold-left', 3, [['S', []], ['S', []], EMPTYF], 'item()*'), 'C18/signature/fn:fold-left#3/returns-python-None-as-item'),
- ('known_sig_fold_right', 'C18/signature/fn:fold-right#3/returns-python-None-as-item', "fn:fold-right((), (), $f) returns [None] (same cause)", 'fix09',
+ ('known_sig_fold_right', 'C18/signature/fn:fold-right#3/returns-python-None-as-item', "fn:fold-right((), (), $f) returns [None] (same cause)", 'fix04',
   SG('fn:fold-right', 3, [['S', []], ['S', []], EMPTYF], 'item()*'), 'C18/signature/fn:fold-right#3/returns-python-None-as-item'),
- ('known_sig_array_fold_left', 'C18/signature/array:fold-left#3/returns-python-None-as-item', "array:fold-left([], (), $f) returns [None] (same cause)", 'fix09',
-  SG('array:fold-left', 3, [['R', []], ['S', []], EMPTYF], 'item()*'), 'C18/signature/array:fold-left#3/returns-python-None-as-item'),
- ('known_sig_array_fold_right', 'C18/signature/array:fold-right#3/returns-python-None-as-item', "array:fold-right([], (), $f) returns [None] (same cause)", 'fix09',
-  SG('array:fold-right', 3, [['R', []], ['S', []], EMPTYF], 'item()*'), 'C18/signature/array:fold-right#3/returns-python-None-as-item'),
  ('known_sig_avg', 'C18/signature/fn:avg#1/returns-empty',
   "fn:avg is registered as `function(xs:anyAtomicType*) as xs:anyAtomicType`; fn:avg(()) returns the empty sequence (F&O 3.1 14.4.2 declares xs:anyAtomicType?)", 'fix07',
   SG('fn:avg', 1, [['S', []]], 'xs:anyAtomicType'), 'C18/signature/fn:avg#1/returns-empty'),
